@@ -17,7 +17,7 @@
                                                                         -> C20_reported_refuted_repeat *)
 From Coq Require Import List String Bool PrimFloat.
 From Verif Require Import Base.Result Base.Str Base.PyDict Model.Types Model.Domain Model.Exec Model.GroundTyped
-  Spec.Pddl Spec.Subst Proofs.C20_Defs Proofs.C20_Subst Proofs.C20_Flat Proofs.C20_Report Proofs.C20_Main.
+  Spec.Pddl Spec.Subst Proofs.C20_Defs Proofs.C20_Subst Proofs.C20_Flat Proofs.C20_Report Proofs.C20_Main Proofs.C20_Consistent.
 Import ListNotations.
 
 (* ---------- (A) ---------- *)
@@ -111,6 +111,14 @@ Theorem C20_reported_ante : forall (d : mdomain) (a : maction) (args : list stri
     eqs = form_eqs sigma phi.
 Proof. exact C20_reported_ante_lemma. Qed.
 
+(* the two models of Operator.ground() agree: whenever the typed report exists, Model.Exec's grounding exists and the
+   report's grounded literals, types dropped, are exactly its literals, in order *)
+Theorem C20_report_refines_ground : forall (d : mdomain) (p : mpre) (sg : signature) (pm : pmap)
+                                           (items : list ritem) (eqs : list eqpair),
+  report_pre d sg pm p = Ok (items, eqs) ->
+  exists g, ground_pre d pm p = Ok g /\ map rlit_untyped (grounded_lits items) = gpre_lits g.
+Proof. exact report_refines_ground. Qed.
+
 (* finding D38: inside the class excluded by [under_forall_touches] the report is not the substituted schema *)
 Theorem C20_reported_refuted_forall :
   exists (d : mdomain) (a : maction) (args : list string) (phi : form) (items : list ritem) (eqs : list eqpair),
@@ -143,5 +151,6 @@ Print Assumptions C20_flat.
 Print Assumptions C20_reported_pre.
 Print Assumptions C20_reported_group.
 Print Assumptions C20_reported_ante.
+Print Assumptions C20_report_refines_ground.
 Print Assumptions C20_reported_refuted_forall.
 Print Assumptions C20_reported_refuted_repeat.
